@@ -5,3 +5,4 @@
 -/
 import Msmart.Props.C01Layers
 import Msmart.Props.C01Stack
+import Msmart.Props.C01Code
